@@ -264,7 +264,7 @@ func (m *c21Model) compare(b *model.AllocationBlock) string {
 			if a.ReleasedAt != nil {
 				return fmt.Sprintf("ordinal %d: model allocated to %s, block has it released (cooling)", o, x.handle)
 			}
-			if (a.HandleID == nil) != (x.handle == "") || (a.HandleID != nil && *a.HandleID != x.handle) {
+			if (a.HandleID == nil) != (x.handle == "") || (a.HandleID != nil && c21Canon(*a.HandleID) != x.handle) {
 				return fmt.Sprintf("ordinal %d: model allocated to %s, block attributes it to %v", o, x.handle, a.HandleID)
 			}
 		case c21Cooling:
@@ -320,7 +320,8 @@ func (m *c21Model) compare(b *model.AllocationBlock) string {
 type c21Req struct {
 	kind   string // assign | assignIP | release | releaseByHandle | advance
 	n      int    // assign: how many
-	handle string
+	handle string // canonical handle ("" = none)
+	stored string // assign: the handle string as stored (may be a malformed form of handle)
 	ord    int
 	rel    []c21RelOpt
 	seq    *uint64 // releaseByHandle
@@ -334,11 +335,19 @@ type c21RelOpt struct {
 	class  string // right | bare | stale-seq | wrong-handle | stale-alloc | not-allocated
 }
 
-var c21Handles = []string{"hA", "hB", "hC"}
+// Handle vocabulary: h1 is a proper prefix of h10 (like vxlan-tunnel-addr-node1 / ...node10), so
+// that handles with a prefix relation share the block.
+var c21Handles = []string{"h1", "h10", "h2"}
+
+// c21Canon is the identity of a stored handle: malformed handles written by an old migration
+// carry "\r<junk>" after the real handle (what the library's sanitizeHandle strips).
+func c21Canon(stored string) string { return strings.Split(stored, "\r")[0] }
 
 // c21AssignHandles: a quarter of the assignments carry no handle ("" = nil HandleID; optional in
 // the API, used for old tunnel / host addresses and by tools).
-var c21AssignHandles = []string{"hA", "hB", "hC", ""}
+// The last entry is such a malformed stored form of h1 (used by the block-level driver only; the
+// client driver stores the canonical handle).
+var c21AssignHandles = []string{"h1", "h10", "h2", "", "h1\rjunk"}
 
 func c21HandlePtr(h string) *string {
 	if h == "" {
@@ -351,9 +360,11 @@ func c21DrawReq(t *rapid.T, m *c21Model) c21Req {
 	k := rapid.IntRange(0, 11).Draw(t, "op")
 	switch {
 	case k <= 3:
-		return c21Req{kind: "assign", n: rapid.IntRange(1, 2).Draw(t, "n"), handle: rapid.SampledFrom(c21AssignHandles).Draw(t, "handle")}
+		st := rapid.SampledFrom(c21AssignHandles).Draw(t, "handle")
+		return c21Req{kind: "assign", n: rapid.IntRange(1, 2).Draw(t, "n"), handle: c21Canon(st), stored: st}
 	case k == 4:
-		return c21Req{kind: "assignIP", ord: rapid.IntRange(0, c21N-1).Draw(t, "ord"), handle: rapid.SampledFrom(c21AssignHandles).Draw(t, "handle")}
+		st := rapid.SampledFrom(c21AssignHandles).Draw(t, "handle")
+		return c21Req{kind: "assignIP", ord: rapid.IntRange(0, c21N-1).Draw(t, "ord"), handle: c21Canon(st), stored: st}
 	case k <= 8:
 		r := c21Req{kind: "release"}
 		n := rapid.IntRange(1, 3).Draw(t, "nrel")
@@ -460,6 +471,8 @@ type c21Exec interface {
 	// load returns the current persisted block after the garbage collection a load performs
 	// (nil if it does not exist yet).
 	block() *model.AllocationBlock
+	// rawHandles: the driver stores handle strings as given (including malformed forms).
+	rawHandles() bool
 	// raw returns the persisted block as it is (no garbage collection).
 	raw() *model.AllocationBlock
 	assign(n int, handle string) (ords []int, err error)
@@ -509,7 +522,14 @@ func c21RunHistory(t *rapid.T, rec *ev.Recorder, ex c21Exec, m *c21Model, nOps i
 		}
 		switch r.kind {
 		case "assign":
-			ords, err := ex.assign(r.n, r.handle)
+			sh := r.handle
+			if ex.rawHandles() {
+				sh = r.stored
+				if sh != r.handle {
+					classes["malformed-stored-handle"] = true
+				}
+			}
+			ords, err := ex.assign(r.n, sh)
 			log = append(log, fmt.Sprintf("#%d %s -> ordinals %v err=%v", i, r, ords, err))
 			amb := 0
 			for o := 0; o < c21N; o++ {
@@ -548,7 +568,11 @@ func c21RunHistory(t *rapid.T, rec *ev.Recorder, ex c21Exec, m *c21Model, nOps i
 			persisted = len(ords) > 0
 			shape = append(shape, fmt.Sprintf("a%d", len(ords)))
 		case "assignIP":
-			err := ex.assignIP(r.ord, r.handle)
+			sh := r.handle
+			if ex.rawHandles() {
+				sh = r.stored
+			}
+			err := ex.assignIP(r.ord, sh)
 			log = append(log, fmt.Sprintf("#%d %s err=%v", i, r, err))
 			x := m.ords[r.ord]
 			if x.state == c21Free {
@@ -665,6 +689,15 @@ func c21RunHistory(t *rapid.T, rec *ev.Recorder, ex c21Exec, m *c21Model, nOps i
 					mine = append(mine, o)
 				}
 			}
+			held := map[string]bool{}
+			for _, x := range m.ords {
+				if x.state == c21Alloc {
+					held[x.handle] = true
+				}
+			}
+			if held["h1"] && held["h10"] {
+				classes["release-by-handle-with-prefix-related-handles-in-block"] = true
+			}
 			n, err := ex.releaseByHandle(r.handle)
 			log = append(log, fmt.Sprintf("#%d %s -> %d err=%v (model: ordinals %v)", i, r, n, err, mine))
 			if n >= 0 && n != len(mine) {
@@ -738,6 +771,7 @@ func (e *c21BlockExec) persist(nb allocationBlock) {
 
 func (e *c21BlockExec) block() *model.AllocationBlock { return e.load().AllocationBlock }
 func (e *c21BlockExec) raw() *model.AllocationBlock   { return e.b.AllocationBlock }
+func (e *c21BlockExec) rawHandles() bool              { return true }
 
 func (e *c21BlockExec) assign(n int, handle string) ([]int, error) {
 	nb := e.load()
@@ -862,6 +896,8 @@ func (e *c21ClientExec) block() *model.AllocationBlock {
 	}
 	return blockFromBackend(e.cfg, kv.Value.(*model.AllocationBlock)).AllocationBlock
 }
+
+func (e *c21ClientExec) rawHandles() bool { return false }
 
 func (e *c21ClientExec) raw() *model.AllocationBlock {
 	kv, err := e.store.Read(e.key)
